@@ -4,6 +4,22 @@ open Conv
 open Streams
 open ListSpec
 
+(* `Streams.both` evaluates the model for every case, also for the cases the driver then drops because they
+   belong to another shard (`gv-model gen <stream> <seed> <n> <shard> <nshards>` keeps case i iff
+   i mod nshards = shard, counting every emit). The model evaluation dominates here, so mirror that
+   counter and hand the driver empty expectations for the cases it is going to drop anyway. If this ever
+   got out of step with the driver, the empty expectations would show up as mismatches, not pass silently. *)
+let shard, nshards =
+  match Array.to_list Sys.argv with
+  | _ :: "gen" :: _ :: _ :: _ :: a :: b :: _ -> (try (int_of_string a, int_of_string b) with _ -> (0, 1))
+  | _ -> (0, 1)
+let emitted = ref 0
+let both_l (emit : Streams.emit) (case : unit -> string) (f : bool -> string) =
+  let i = !emitted in
+  incr emitted;
+  if i mod nshards = shard then emit (case ()) (f true) (f false) else emit "" "" ""
+let both emit case f = both_l emit (fun () -> case) f
+
 let p2 k = Z.shift_left Z.one k
 let zmax64 = Z.pred (p2 64)
 let amodz sz = p2 (8 * sz)
@@ -267,10 +283,13 @@ let spec_loc cs =
      | Some rs -> Some ("ok" ^ String.concat "" (List.map (fun x -> " " ^ pr_locrange x) rs))
      | None -> None)
 
-let emit_spec emit line spec model =
-  both emit line (fun dbg ->
-    let m = model dbg in
-    if m = spec then spec else "SPEC-MODEL-DISAGREE spec=[" ^ spec ^ "] model=[" ^ m ^ "]")
+let emit_spec emit (line : unit -> string) (spec : unit -> string option) model =
+  both_l emit line (fun dbg ->
+    match spec () with
+    | None -> "SPEC-UNDEFINED"
+    | Some spec ->
+      let m = model dbg in
+      if m = spec then spec else "SPEC-MODEL-DISAGREE spec=[" ^ spec ^ "] model=[" ^ m ^ "]")
 
 (* exhaustive small domain of section contents for the arbitrary-bytes streams *)
 let small_sections (k : int list -> unit) =
@@ -295,21 +314,16 @@ let () =
   register "c08.rng" ~doc:"RangeLists::ranges on well-formed lists (every kind, boundary addresses, all address sizes, versions 2-5): expected = ListSpec.resolve_rng"
     (fun ~seed ~n emit ->
       let r = mk_rng seed in
-      let made = ref 0 in
-      while !made < n do
+      for _ = 1 to n do
         let cs = gen_case r ~wf:true ~loc:false in
-        match spec_rng cs with
-        | Some s -> incr made;
-            if Sys.getenv_opt "GV_DEBUG" <> None then prerr_endline (rng_line "c08.rng" cs ^ " :: " ^ String.concat "; " (List.map pr_lent (Option.get cs.rents)));
-            emit_spec emit (rng_line "c08.rng" cs) s (fun dbg -> model_rng dbg cs)
-        | None -> ()
+        emit_spec emit (fun () -> rng_line "c08.rng" cs) (fun () -> spec_rng cs) (fun dbg -> model_rng dbg cs)
       done);
   register "c08.rngm" ~doc:"RangeLists::ranges on damaged lists: bad indices, truncations, spliced LEBs, invalid address sizes/versions/offsets"
     (fun ~seed ~n emit ->
       let r = mk_rng (seed + 101) in
       for _ = 1 to n do
         let cs = damage r (gen_case r ~wf:(rand_bool r) ~loc:false) in
-        both emit (rng_line "c08.rngm" cs) (fun dbg -> model_rng dbg cs)
+        both_l emit (fun () -> rng_line "c08.rngm" cs) (fun dbg -> model_rng dbg cs)
       done);
   register "c08.rngb" ~doc:"RangeLists::ranges on arbitrary bytes (exhaustive: all sections of <= 2 bytes and opcode x 8-letter alphabet up to 5 bytes, address size 1, v5 and v4); harness checks begin<end && begin<tombstone on every yielded range"
     (fun ~seed ~n emit ->
@@ -318,29 +332,26 @@ let () =
           let sect = bytes_of_ints l in
           let cs = { be = false; asize = 1; version; dwo = false; base = Z.of_int 0x10; addr_base = 0; offset = Z.zero;
                      debug_addr = fixed_addr_table false; legacy = sect; v5 = sect; rents = None; lents = None } in
-          both emit (rng_line "c08.rngb" cs) (fun dbg -> model_rng dbg cs))) [5; 4];
+          both_l emit (fun () -> rng_line "c08.rngb" cs) (fun dbg -> model_rng dbg cs))) [5; 4];
       let r = mk_rng (seed + 202) in
       for _ = 1 to n do
         let cs = gen_bytes_case r ~loc:false in
-        both emit (rng_line "c08.rngb" cs) (fun dbg -> model_rng dbg cs)
+        both_l emit (fun () -> rng_line "c08.rngb" cs) (fun dbg -> model_rng dbg cs)
       done);
   (* ---------------- resolved location lists *)
   register "c08.loc" ~doc:"LocationLists::locations / locations_dwo on well-formed lists (DW_LLE, legacy pairs, GNU split-DWARF v4 layout): expected = ListSpec.resolve_loc"
     (fun ~seed ~n emit ->
       let r = mk_rng (seed + 303) in
-      let made = ref 0 in
-      while !made < n do
+      for _ = 1 to n do
         let cs = gen_case r ~wf:true ~loc:true in
-        match spec_loc cs with
-        | Some s -> incr made; emit_spec emit (loc_line "c08.loc" cs) s (fun dbg -> model_loc dbg cs)
-        | None -> ()
+        emit_spec emit (fun () -> loc_line "c08.loc" cs) (fun () -> spec_loc cs) (fun dbg -> model_loc dbg cs)
       done);
   register "c08.locm" ~doc:"LocationLists::locations(_dwo) on damaged lists"
     (fun ~seed ~n emit ->
       let r = mk_rng (seed + 404) in
       for _ = 1 to n do
         let cs = damage r (gen_case r ~wf:(rand_bool r) ~loc:true) in
-        both emit (loc_line "c08.locm" cs) (fun dbg -> model_loc dbg cs)
+        both_l emit (fun () -> loc_line "c08.locm" cs) (fun dbg -> model_loc dbg cs)
       done);
   register "c08.locb" ~doc:"LocationLists::locations(_dwo) on arbitrary bytes (same exhaustive small domain x {v5, v4 pairs, v4 dwo}); harness checks every yielded range"
     (fun ~seed ~n emit ->
@@ -349,11 +360,11 @@ let () =
           let sect = bytes_of_ints l in
           let cs = { be = false; asize = 1; version; dwo; base = Z.of_int 0x10; addr_base = 0; offset = Z.zero;
                      debug_addr = fixed_addr_table false; legacy = sect; v5 = sect; rents = None; lents = None } in
-          both emit (loc_line "c08.locb" cs) (fun dbg -> model_loc dbg cs))) [(5, false); (4, false); (4, true)];
+          both_l emit (fun () -> loc_line "c08.locb" cs) (fun dbg -> model_loc dbg cs))) [(5, false); (4, false); (4, true)];
       let r = mk_rng (seed + 505) in
       for _ = 1 to n do
         let cs = gen_bytes_case r ~loc:true in
-        both emit (loc_line "c08.locb" cs) (fun dbg -> model_loc dbg cs)
+        both_l emit (fun () -> loc_line "c08.locb" cs) (fun dbg -> model_loc dbg cs)
       done);
   (* ---------------- raw iteration *)
   register "c08.rraw" ~doc:"RangeLists::raw_ranges: well-formed lists read back as the encoded entries (expected = the entries), then damaged lists (expected = model)"
@@ -362,11 +373,11 @@ let () =
       for i = 1 to n do
         let cs = gen_case r ~wf:true ~loc:false in
         if i mod 3 <> 0 then begin
-          let s = "ok" ^ String.concat "" (List.map (fun e -> " " ^ pr_lent e) (Option.get cs.rents)) in
-          emit_spec emit (rraw_line "c08.rraw" cs) s (fun dbg -> model_rraw dbg cs)
+          let s () = Some ("ok" ^ String.concat "" (List.map (fun e -> " " ^ pr_lent e) (Option.get cs.rents))) in
+          emit_spec emit (fun () -> rraw_line "c08.rraw" cs) s (fun dbg -> model_rraw dbg cs)
         end else begin
           let cs = damage r cs in
-          both emit (rraw_line "c08.rraw" cs) (fun dbg -> model_rraw dbg cs)
+          both_l emit (fun () -> rraw_line "c08.rraw" cs) (fun dbg -> model_rraw dbg cs)
         end
       done);
   register "c08.lraw" ~doc:"LocationLists::raw_locations(_dwo): well-formed lists read back as the encoded entries, then damaged lists"
@@ -375,11 +386,11 @@ let () =
       for i = 1 to n do
         let cs = gen_case r ~wf:true ~loc:true in
         if i mod 3 <> 0 then begin
-          let s = "ok" ^ String.concat "" (List.map (fun e -> " " ^ pr_lloc e) (Option.get cs.lents)) in
-          emit_spec emit (lraw_line "c08.lraw" cs) s (fun dbg -> model_lraw dbg cs)
+          let s () = Some ("ok" ^ String.concat "" (List.map (fun e -> " " ^ pr_lloc e) (Option.get cs.lents))) in
+          emit_spec emit (fun () -> lraw_line "c08.lraw" cs) s (fun dbg -> model_lraw dbg cs)
         end else begin
           let cs = damage r cs in
-          both emit (lraw_line "c08.lraw" cs) (fun dbg -> model_lraw dbg cs)
+          both_l emit (fun () -> lraw_line "c08.lraw" cs) (fun dbg -> model_lraw dbg cs)
         end
       done);
   (* ---------------- indexed tables *)
